@@ -237,6 +237,7 @@ def run_prog(prog):
             if doers is None:
                 ctx.live.add(0)
             return r
+    ctor = bool(prog.get("ctor"))
     doist = BudgetDoist(tock=prog["tock"], limit=prog["limit"], real=False, tyme=prog["tyme"])
     ctx.doist = doist
     ctx.objs[0] = doist
@@ -244,22 +245,35 @@ def run_prog(prog):
         if i not in ctx.objs:
             _build(ctx, i)
     doers = [ctx.objs[i] for i in prog["doers"]]
+    if ctor:                      # doers given at construction, do() called without them
+        doist.doers = list(doers)
+    runs = [dict(doers=None if ctor else doers)]
+    for a in prog.get("again", []):
+        kw = {}
+        if a.get("limit") is not None:
+            kw["limit"] = a["limit"]
+        if a.get("tyme") is not None:
+            kw["tyme"] = a["tyme"]
+        runs.append(kw)
     raised = "none"
-    try:
-        if prog.get("mode", "do") == "ado":
-            asyncio.run(doist.ado(doers=doers))
-        else:
-            doist.do(doers=doers)
-        ctx.log.append(("DoReturn", 0, doist.tyme))
-    except ScriptError:
-        raised = "script"
-        ctx.log.append(("DoRaise", 0, doist.tyme))
-    except KeyboardInterrupt:
-        raised = "kbd"
-        ctx.log.append(("DoRaise", 0, doist.tyme))
-    except Exception as ex:
-        raised = "escape:" + type(ex).__name__
-        ctx.log.append(("DoRaise", 0, doist.tyme))
+    for kw in runs:
+        doist.cycles = 0
+        try:
+            if prog.get("mode", "do") == "ado":
+                asyncio.run(doist.ado(**kw))
+            else:
+                doist.do(**kw)
+            ctx.log.append(("DoReturn", 0, doist.tyme))
+            raised = "none"
+        except ScriptError:
+            raised = "script"
+            ctx.log.append(("DoRaise", 0, doist.tyme))
+        except KeyboardInterrupt:
+            raised = "kbd"
+            ctx.log.append(("DoRaise", 0, doist.tyme))
+        except Exception as ex:
+            raised = "escape:" + type(ex).__name__
+            ctx.log.append(("DoRaise", 0, doist.tyme))
     ids = sorted(int(k) for k in prog["defs"])
     inv = {id(o): i for i, o in ctx.objs.items()}
     def idlist(objs):
@@ -333,9 +347,16 @@ def to_coq(case, obs):
     dones = coq_list([f"({coq_N(i)}, {coq_option(d, coq_bool, 'bool')})" for i, d in obs["dones"]], "N * option bool")
     scheds = coq_list([f"({coq_N(i)}, {coq_list([coq_N(j) for j in l], 'N')}, {coq_nat(n)})" for i, l, n in obs["scheds"]],
                       "N * list N * nat")
+    # effective limit of each further run: a new one, or the one kept from the previous run
+    eff, again = case["limit"], []
+    for a in case.get("again", []):
+        if a.get("limit") is not None:
+            eff = a["limit"]
+        again.append(f"({coq_option(eff, _fl, 'float')}, {coq_option(a.get('tyme'), _fl, 'float')})")
     return ("{| SchedCase.c_prog := %s; SchedCase.c_trace := %s; SchedCase.c_dones := %s; SchedCase.c_tyme := %s; "
-            "SchedCase.c_scheds := %s; SchedCase.c_escape := %s |}" % (
-                prog_to_coq(case), tr, dones, _hexfl(obs["tyme"]), scheds, coq_bool(obs["raised"].startswith("escape"))))
+            "SchedCase.c_scheds := %s; SchedCase.c_escape := %s; SchedCase.c_again := %s |}" % (
+                prog_to_coq(case), tr, dones, _hexfl(obs["tyme"]), scheds, coq_bool(obs["raised"].startswith("escape")),
+                coq_list(again, "option float * option float")))
 
 
 # ----------------------------------------------------------------------------- trace utilities for oracles
@@ -644,3 +665,15 @@ def reference_flat(prog):
             return out, tyme, False
         if cycles > 400:
             return out, tyme, None
+
+
+def add_reruns(rng, p, n=None):
+    """Further runs on the same Doist (do() without doers): optional new limit and tyme reset."""
+    k = n if n is not None else rng.choice([1, 1, 2])
+    p["again"] = []
+    for _ in range(k):
+        p["again"].append({"limit": rng.choice([None, None, p["tock"], 2.5 * p["tock"], 0.7]),
+                           "tyme": rng.choice([None, None, 0.0, 3.0])})
+    if rng.random() < 0.5:
+        p["ctor"] = True
+    return p
